@@ -1,14 +1,14 @@
 from .base import *
 
 ID = 'C08'
-THEOREMS = ['C08_sub_shift', 'C08_measurements', 'C08_cone', 'C08_trig', 'C08_result_blades', 'C08_result_values', 'C08_project_result', 'C08_shift_def']
+THEOREMS = ['C08_sub_shift', 'C08_measurements', 'C08_cone', 'C08_trig', 'C08_result_blades', 'C08_result_values', 'C08_project_result', 'C08_shift_def', 'C08_direction_shift', 'C08_sum_cartesian']
 OWNED = {'GDot', 'GWedge', 'GMeet', 'GProject', 'GReject', 'GProjDim', 'GDist', 'GIsOrth', 'GCos', 'GSin', 'AProject', 'CCone', 'GAdd', 'GMul', 'GProjAngle'}
 RULE = ('every binary measurement on operand pairs from the C01 domain repeated with whole-turn shifts 4n, n in {1, 250000, 2^19, 2^28, 2^30}, applied to the first, the second or both operands '
         '(and to the dimension index of project_to_dimension, the member and axis of select_cone); sums under shifts n <= 2^19 compared as Cartesian vectors. '
         'non-trivial = a measurement on a shifted pair; distinct by (measurement, operand bits, shift)')
 TRUSTED = TRUSTED_COMMON
 ASSUMPTIONS = ASSUME_COMMON
-S3_LEGS = ['Cartesian value of SUMS under shifts up to 2^19 (tolerance grows with ulp(blade*pi/2)): predicate cart_close', 'product / wedge / meet / dual / rotation / projection RESULTS under shifts are theorems (C08_result_values, C08_project_result: bit-identical magnitude and remainder, blade moved by exactly 4(m+n)); reject and geo (which go through the general sum and atan2) by predicate measure_shift_equal only']
+S3_LEGS = ['Cartesian value of SUMS under shifts: theorem C08_sum_cartesian (general path, libm accuracy premises, tolerance growing by 4e-15 per blade) plus predicate cart_close on every generated case (shifts up to 2^19)', 'product / wedge / meet / dual / rotation / projection RESULTS under shifts are theorems (C08_result_values, C08_project_result: bit-identical magnitude and remainder, blade moved by exactly 4(m+n)); reject and geo (which go through the general sum and atan2) by predicate measure_shift_equal only']
 
 SHIFTS = [1, 250000, 2**19, 2**28, 2**30]
 
@@ -65,5 +65,5 @@ def generate(rng, tier):
 
 LEVEL_TEXT = ('Kernel-checked theorems for EVERY libm, ALL operands and ALL whole-turn shifts (unbounded n, either or both operands): the angle difference keeps its remainder bit-for-bit and its grade, hence dot, wedge magnitude, distance_to, is_orthogonal, '
               'Angle::project, projection magnitude, project_to_angle, the cone-selection predicate and Geonum::cos/sin are BIT-IDENTICAL; sums of angles shift by exactly 4(n+m) blades with identical remainder. '
-              'The Cartesian value of Geonum sums under shifts is decided by predicate (S3). C08_result_values / C08_project_result (ShiftResults.v, every libm, all operands, all shifts): the product, wedge and meet of shifted operands ARE the shifted product / wedge / meet (magnitude and remainder bit-identical, blade count moved by exactly 4(m+n)), duals and rotations commute with the shift, and a projection onto a non-negligible axis follows the shift of the axis only.')
-LEVEL_NOTE = ('Trusted: Coq kernel + vm_compute; 4 standard-library axioms; hand-written model validated bit-for-bit each run. The theorems need no assumption on libm (they are equalities of arguments passed to it).')
+              'The Cartesian value of Geonum sums under shifts is decided by predicate (S3). C08_result_values / C08_project_result (ShiftResults.v, every libm, all operands, all shifts): the product, wedge and meet of shifted operands ARE the shifted product / wedge / meet (magnitude and remainder bit-identical, blade count moved by exactly 4(m+n)), duals and rotations commute with the shift, and a projection onto a non-negligible axis follows the shift of the axis only. C08_direction_shift / C08_sum_cartesian (ShiftSum.v, REAL pi): the direction of an angle ignores whole turns exactly, and the general-path sum of shifted operands reproduces the Cartesian sum of the UNSHIFTED operands within the tolerance of C06_cartesian at the shifted blade sum.')
+LEVEL_NOTE = ('Trusted: Coq kernel + vm_compute; 4 standard-library axioms; hand-written model validated bit-for-bit each run. The shift theorems need no assumption on libm (they are equalities of arguments passed to it); C08_sum_cartesian alone takes the three libm accuracy premises of C06_cartesian and adds the primitive-integer axioms (PrimInt63.*, Uint63.*_spec) of the Interval tactic through PiBounds.v.')
